@@ -159,14 +159,14 @@ type Del struct {
 }
 
 type Sub struct {
-	Cfg  SubCfg
-	Live bool
-	Gen  int
-	TGen int // generation of the topic it is attached to
+	Cfg   SubCfg
+	Live  bool
+	Gen   int
+	TGen  int // generation of the topic it is attached to
 	DLGen int
-	Dels []*Del
+	Dels  []*Del
 	// TTL clock: expires when now > Activity + TTL
-	Activity Iv
+	Activity  Iv
 	DeletedAt Iv
 	// Held: ack ids the client received and has not acked, in receive order
 	Held []string
@@ -379,21 +379,21 @@ func (m *Model) hasDL(s *Sub) bool { return s.Cfg.MaxAttempts > 0 && s.Cfg.DLTop
 
 // Call is a fully resolved operation.
 type Call struct {
-	Op      Op
-	AckIDs  []string
-	Time    time.Time // seek target / tick target (logical)
-	Payload [][]byte
+	Op       Op
+	AckIDs   []string
+	Time     time.Time // seek target / tick target (logical)
+	Payload  [][]byte
 	MsgAttrs []map[string]string
 }
 
 type RecvMsg struct {
-	AckID    string
-	MsgID    string
-	Data     []byte
-	Attrs    map[string]string
-	Key      string
-	Attempt  int
-	PubTime  time.Time // logical
+	AckID   string
+	MsgID   string
+	Data    []byte
+	Attrs   map[string]string
+	Key     string
+	Attempt int
+	PubTime time.Time // logical
 	// Phase: for a streaming session, the number of follow-up requests that had
 	// gone in when the stream sent this message
 	Phase int
@@ -428,10 +428,10 @@ type Obs struct {
 
 // SubView is the client-visible configuration of a subscription.
 type SubView struct {
-	Topic    string
-	Filter   string
-	Ordered  bool
-	DLTopic  string
+	Topic       string
+	Filter      string
+	Ordered     bool
+	DLTopic     string
 	MaxAttempts int
 }
 
